@@ -38,6 +38,25 @@ def leaves (alphabet : Str) : Nat → Str → String → String
 def blockCodes (alphabet prefix_ : Str) (n : Nat) : String :=
   (List.range (n + 1)).foldl (fun acc k => leaves alphabet k prefix_.reverse acc) ""
 
+/-- the same enumeration with an arbitrary per-word code -/
+def leavesG (code : Str → Char) (alphabet : Str) : Nat → Str → String → String
+  | 0, rp, acc => acc.push (code rp.reverse)
+  | k + 1, rp, acc => alphabet.foldl (fun acc a => leavesG code alphabet k (a :: rp) acc) acc
+
+def blockCodesG (code : Str → Char) (alphabet : Str) (n : Nat) : String :=
+  (List.range (n + 1)).foldl (fun acc k => leavesG code alphabet k [] acc) ""
+
+/-- outcome of `create_release_id` with argument `pos` replaced by `w` and the other five taken from `a`:
+`1` accepted, `V` ValueError, `T` TypeError -/
+def createCode (a : Json) (pos : String) (w : Str) : Char :=
+  let g (k : String) : Option Str := if k == pos then some w else getOptStr a k
+  match createReleaseId ((g "short").getD []) ((g "version").getD []) ((g "type").getD [])
+      (g "bp_short") (g "bp_version") (g "bp_type") with
+  | .ok _ => '1'
+  | .error .valueError => 'V'
+  | .error .typeError => 'T'
+  | .error _ => 'E'
+
 def jrel (r : Rel) (pre : String) : List (String × Json) :=
   [(pre ++ "short", jstr r.short), (pre ++ "version", jstr r.version), (pre ++ "type", jstr r.type)]
 
@@ -57,6 +76,8 @@ def ops : List (String × (Json → Json)) :=
       | none => jerr "bad-op"),
    ("c14_block", fun a =>
       Json.str (blockCodes (getStrD a "alphabet") (getStrD a "prefix") ((getNat? a "n").getD 0))),
+   ("c14_create_block", fun a =>
+      Json.str (blockCodesG (createCode a (String.ofList (getStrD a "pos"))) (getStrD a "alphabet") ((getNat? a "n").getD 0))),
    ("c14_create", fun a => exceptJson jstr (createOf a)),
    ("c14_parse", fun a => jparsed (parseReleaseId (getStrD a "id"))),
    ("c14_roundtrip", fun a =>
